@@ -15,3 +15,10 @@ func VerifWriteSerializers(t dsl.TypeDefinition) string {
 	writeSerializers(w, t)
 	return b.String()
 }
+
+func VerifWriteTypeConversion(tc dsl.TypeChange, src, dst string, write bool) string {
+	b := bytes.Buffer{}
+	w := formatting.NewIndentedWriter(&b, "  ")
+	writeTypeConversion(w, tc, src, dst, write)
+	return b.String()
+}
